@@ -128,16 +128,24 @@ def search(ctx):
             if not (-1 - 1e-12 <= g <= 1 + 1e-12):
                 ctx.violation("C03:asymmetry-range", "asymmetry parameter %r outside [-1, 1]" % g, info)
             # optical theorem through calc_scat_matrix at theta = 0
-            S0 = calc_scat_matrix(detector_points(theta=[0.0], phi=[0.0]), sc, medium_index=nm, illum_wavelen=wl, theory=Mie()).values[0]
+            # the angles of an angular detector are scattering angles ABOUT THE PARTICLE: wherever the particle sits in the
+            # lab, and whether or not the detector also states a distance (scheduled: no centre / off-axis centre / off-axis
+            # centre and a finite distance)
+            place = i % 3
+            scp = sc if place == 0 else Sphere(n=sc.n, r=sc.r, center=(float(rng.uniform(1, 5)), float(rng.uniform(-5, -1)), float(rng.uniform(8, 25))))
+            rdet = dict(r=float(np.max(sc.r) * rng.uniform(20, 200) + rng.uniform(5, 40))) if place == 2 else {}
+            info = dict(info, center=None if place == 0 else [float(v) for v in scp.center], detector_r=rdet.get("r"))
+            S0 = calc_scat_matrix(detector_points(theta=[0.0], phi=[0.0], **rdet), scp, medium_index=nm, illum_wavelen=wl, theory=Mie()).values[0]
             ot = 4 * math.pi / kw ** 2 * float(np.real(S0[0, 0]))
             if not (abs(ot - cext) <= 1e-6 * abs(cext)):
-                ctx.violation("C03:optical-theorem", "extinction %g != 4 pi/k^2 Re S(0) = %g" % (cext, ot), info)
+                ctx.violation("C03:optical-theorem" + ("" if place == 0 else ":off-axis-particle"), "extinction %g != 4 pi/k^2 Re S(0) = %g (particle centre %r, detector distance %r)" % (
+                    cext, ot, info["center"], info["detector_r"]), info)
             # scattering and asymmetry as solid-angle integrals of |S|^2 (independent quadrature)
             if x <= 40 and i % 2 == 0:
                 nq = int(4 * x + 40)
                 mu, w = gl(nq)
                 th = np.arccos(mu)
-                S = calc_scat_matrix(detector_points(theta=th, phi=np.zeros_like(th)), sc, medium_index=nm, illum_wavelen=wl, theory=Mie()).values
+                S = calc_scat_matrix(detector_points(theta=th, phi=np.zeros_like(th), **rdet), scp, medium_index=nm, illum_wavelen=wl, theory=Mie()).values
                 s2, s1 = S[:, 0, 0], S[:, 1, 1]
                 dif = (np.abs(s1) ** 2 + np.abs(s2) ** 2)
                 qsca = math.pi / kw ** 2 * float((w * dif).sum())
